@@ -33,7 +33,7 @@ impl<'a> Ctx<'a> {
     }
 
     /// one `let`: the Lean bindings it becomes (several for an irrefutable struct pattern: one projection per bound field)
-    fn local(&mut self, l: &syn::Local, rename: bool) -> R<Vec<(String, L)>> {
+    pub(crate) fn local(&mut self, l: &syn::Local, rename: bool) -> R<Vec<(String, L)>> {
         let (pat, ann) = match &l.pat {
             Pat::Type(pt) => (&*pt.pat, Some(self.rust_ty(&pt.ty)?)),
             p => (p, None),
@@ -328,6 +328,8 @@ impl<'a> Ctx<'a> {
             RetMode::Plain if self.prog.is_some() => Ok(L::app(&format!("{}.ret", self.prog.as_ref().unwrap().ns_lean), vec![v])),
             RetMode::Plain => Ok(v),
             RetMode::MutSelfUnit => self_l(),
+            // blockmod.rs: a function in interaction form whose `&mut` slice parameter is returned with the result
+            RetMode::MutSelfVal if self.prog.is_some() => Ok(L::app(&format!("{}.ret", self.prog.as_ref().unwrap().ns_lean), vec![L::Tuple(vec![self_l()?, v])])),
             RetMode::MutSelfVal => Ok(L::Tuple(vec![self_l()?, v])),
         }
     }
@@ -399,6 +401,10 @@ impl<'a> Ctx<'a> {
                         }
                     }
                 }
+                // blockmod.rs (opt-in): `let x = opt.unwrap_or_else(|| { …interactions… });`
+                if let Some(r) = self.block_local(l, rest, value_tail, conts)? {
+                    return Ok(r);
+                }
                 // loops.rs (opt-in): view declarations, the mutating fold over a view, argument-updating closures
                 if let Some(r) = self.ext_local(l, rest, value_tail, conts)? {
                     return Ok(r);
@@ -454,6 +460,8 @@ impl<'a> Ctx<'a> {
             Expr::Match(m) => Ok(self.match_expr(m, &self.ret_ty.clone(), Some((&[], true)))?.0),
             Expr::Return(r) => self.return_(r),
             Expr::If(_) | Expr::Assign(_) | Expr::ForLoop(_) => self.stmt_expr(e, &[]),
+            // blockmod.rs (opt-in): a tail call of a function translated in interaction form
+            _ if self.block_prog_call(e).is_some() => self.block_tail_call(e),
             // a tail call of an interaction: its answer is the function's result
             _ if self.prog.is_some() && self.interaction_shape(e) => {
                 let it = self.interaction(e)?.ok_or("internal: interaction shape")?;
@@ -492,6 +500,10 @@ impl<'a> Ctx<'a> {
     /// `e` is executed as a statement, then the continuation runs
     pub(crate) fn stmt_expr(&mut self, e: &Expr, conts: &[Frame]) -> R<L> {
         // loops.rs (opt-in): `for` as map / fold, `loop` under fuel, method-call statements, joined `if`
+        // blockmod.rs (opt-in): `for` with interactions in its body, `continue`, `if` / `match` joined on the locals they assign
+        if let Some(l) = self.block_stmt(e, conts)? {
+            return Ok(l);
+        }
         if let Some(l) = self.ext_stmt(e, conts)? {
             return Ok(l);
         }
@@ -889,6 +901,10 @@ impl<'a> Ctx<'a> {
                         ls.push(self.interaction_arg(a, pt, &mut partial, &format!("the tree's `{name}`"))?);
                     }
                     return Ok(Some(Interaction { partial, ask: false, term: L::App(sig.lean.clone(), ls), ret: sig.ret.clone(), view: None }));
+                }
+                // blockmod.rs (opt-in): a pure read of the tree is an ordinary value
+                if self.ext.block && crate::blockmod::is_pure_read(&name) {
+                    return Ok(None);
                 }
                 Err(format!("`{name}` is not a translated method of the tree"))
             }
